@@ -133,6 +133,9 @@ func childMain() {
 		c := sp.at(i)
 		r := evalCase(c)
 		curIdx.Store(-1)
+		if c.Alphabet == "A2-large" {
+			runtime.GC() // these come last and leave megabytes of garbage each; nothing huge is allocated after them
+		}
 		if len(r.Findings) > 0 {
 			b, _ := json.Marshal(r)
 			os.Stdout.WriteString("V " + strconv.Itoa(i) + " " + string(b) + "\n")
